@@ -555,6 +555,13 @@ fn cli_cases(_t: Tier) -> Vec<CliMeta> {
         "ends with dot.",
         "file.mp4",
         "#hashtag; rm -rf",
+        // values that name a file which exists in the tool's working directory (an "@file" / response-file convention
+        // must not apply to a title)
+        "@video.hex",
+        "@./video.hex",
+        "file:video.hex",
+        "<video.hex",
+        "video.hex",
     ];
     let mut v = Vec::new();
     for (i, t) in titles.iter().enumerate() {
